@@ -153,7 +153,10 @@ func check(c Case) (r pbt.Result) {
 				return
 			}
 		case "RH":
-			if dew[b] < dew[a] {
+			// (the dew point is a quotient of logarithms: for humidities a few ulps apart the computed values can be
+			// out of order by the rounding of the last operations - 1 ulp seen for RH 0.9999999999999991 vs ...96 -
+			// so "rises" is asserted up to 8 ulps of the dew point)
+			if dew[b] < dew[a]-8*ulpOf(math.Max(math.Abs(dew[a]), 1)) {
 				r.Failf("dew point falls with rising humidity at T=%v: RH %v -> %v, dew %v -> %v", p.T1, p.H1, p.H2, dew[a], dew[b])
 				return
 			}
@@ -165,3 +168,5 @@ func check(c Case) (r pbt.Result) {
 func TestClimateOrdering(t *testing.T) { pbt.Run(t, gen, check) }
 
 func FuzzClimateOrdering(f *testing.F) { pbt.Fuzz(f, gen, check) }
+
+func ulpOf(x float64) float64 { return math.Nextafter(x, math.Inf(1)) - x }
